@@ -10,4 +10,11 @@ open Strengths.Gen.PyNumeric
 limited number of digits (the model computes its values exactly and its texts through `repr`) -/
 theorem units_full_precision : fullPrecision inv_units = true := by decide +kernel
 
+/-- the only maxima / minima / absolute values taken in `units.py` are `UnitValue.__abs__` / `UnitArray.__abs__` (the operator itself); no amount, rate, time or
+coefficient is clamped, and no exception is swallowed -/
+theorem units_no_clamping :
+    clamp_units =
+      [("clamp", "abs(self.value)"), ("clamp", "abs(self.value)")] := by
+  decide +kernel
+
 end Strengths.PyNumeric
